@@ -65,8 +65,63 @@ def _harness_env():
         yield
 
 
-def attach(owner, name, post=None, pre=None, op=None, is_method=True, reentrant=False):
+AMBIENT = {"every": 4, "checked": Counter(), "skipped_warned": Counter(), "skipped_raised": Counter()}
+
+
+def _same(a, b):
+    if isinstance(a, (tuple, list)) and isinstance(b, (tuple, list)):
+        return len(a) == len(b) and all(_same(x, y) for x, y in zip(a, b))
+    try:
+        import torch
+
+        if isinstance(a, torch.Tensor) or isinstance(b, torch.Tensor):
+            return isinstance(a, torch.Tensor) and isinstance(b, torch.Tensor) and a.shape == b.shape and a.dtype == b.dtype and bool(torch.equal(a, b))
+    except ImportError:
+        pass
+    try:
+        a_, b_ = np.asarray(a), np.asarray(b)
+        if a_.dtype == object or b_.dtype == object:
+            return True  # not comparable here: not judged
+        return a_.shape == b_.shape and a_.dtype == b_.dtype and bool(np.array_equal(a_, b_, equal_nan=True))
+    except Exception:
+        return True
+
+
+def _ambient_check(opname, func, args, kwargs, report):
+    """A stateless operation under process-wide settings the library does not own.  The call is made twice more: once under the
+    default settings with every warning recorded, once in a program that turns warnings into errors and has NumPy raise on division
+    by zero, overflow and invalid operations.  If the first neither fails nor warns (the floating-point warnings of NumPy
+    included), the second must return the same thing: code whose result or success depends on those settings has to be hiding
+    warnings or errors of its own."""
+    try:
+        with np.errstate(divide="warn", over="warn", under="ignore", invalid="warn"), warnings.catch_warnings(record=True) as wl:
+            warnings.simplefilter("always")
+            ra = func(*args, **kwargs)
+    except Exception:
+        AMBIENT["skipped_raised"][opname] += 1
+        return
+    if wl:
+        AMBIENT["skipped_warned"][opname] += 1
+        return
+    AMBIENT["checked"][opname] += 1
+    try:
+        with np.errstate(divide="raise", over="raise", under="ignore", invalid="raise"), warnings.catch_warnings():
+            warnings.simplefilter("error")
+            rb = func(*args, **kwargs)
+    except Exception as e:
+        report("%s raised %r in a program whose warnings are errors and whose NumPy raises on division by zero / overflow / invalid operations, "
+               "although the same call neither warns nor fails under the default settings" % (opname, e), check="ambient_settings", op=opname)
+        return
+    if not _same(ra, rb):
+        report("%s returns something else in a program whose warnings are errors and whose NumPy raises on floating-point errors, although the "
+               "same call neither warns nor fails under the default settings" % opname, check="ambient_settings", op=opname)
+
+
+def attach(owner, name, post=None, pre=None, op=None, is_method=True, reentrant=False, ambient=None, ambient_ok=None):
     """Wrap owner.name.  is_method: first positional argument is `self`.
+
+    ambient=report(what, **kw): the operation is stateless and does not consume or change its arguments; every AMBIENT["every"]-th
+    successful call (for which ambient_ok(call), if given, is true) is repeated under other process-wide settings (_ambient_check).
 
     reentrant=False: nested calls made *by the monitor's own oracle* (it may call the
     same API on twins) are not monitored again."""
@@ -112,6 +167,15 @@ def attach(owner, name, post=None, pre=None, op=None, is_method=True, reentrant=
                 _harness_fault(opname, "post")
             finally:
                 _DEPTH["n"] -= 1
+        if ambient is not None and c.exc is None and EVALS[opname] % AMBIENT["every"] == 0:
+            _DEPTH["n"] += 1
+            try:
+                if ambient_ok is None or ambient_ok(c):
+                    _ambient_check(opname, func, args, kwargs, ambient)
+            except Exception:
+                _harness_fault(opname, "ambient")
+            finally:
+                _DEPTH["n"] -= 1
         if c.exc is not None:
             raise c.exc
         return c.result
@@ -121,6 +185,21 @@ def attach(owner, name, post=None, pre=None, op=None, is_method=True, reentrant=
     setattr(owner, name, new)
     _ATTACHED.append((owner, name, orig))
     return wrapper
+
+
+def not_in_place(c):
+    """the call did not ask for its input to be overwritten (third positional argument or keyword of the apply methods)"""
+    ip = c.kwargs.get("in_place", c.args[2] if len(c.args) > 2 else False)
+    try:
+        return not bool(ip)
+    except Exception:
+        return False
+
+
+def named_file(c):
+    """the first argument names a file (an open stream is consumed by the first call)"""
+    a = c.args[0] if c.args else c.kwargs.get("rfilename")
+    return isinstance(a, str) and not a.endswith("|")
 
 
 class quiet:
@@ -143,6 +222,10 @@ def report(rec, required=()):
     """Copy evaluation counters into the recorder; flag unreached deciding monitors."""
     for k, v in EVALS.items():
         rec.count("monitor_evals:" + k, v)
+    for name in ("checked", "skipped_warned", "skipped_raised"):
+        for k, v in AMBIENT[name].items():
+            rec.count("ambient_settings_%s:%s" % (name, k), v)
+        AMBIENT[name].clear()
     for op, where, tb in MONITOR_ERRORS[:5]:
         rec.inconc("harness fault in monitor %s (%s): %s" % (op, where, tb.strip().splitlines()[-1]))
         rec.note(tb)
